@@ -380,12 +380,15 @@ def _batch(h, prop, tier, batch_seed, args, t0):
         "samples": [],
         "violations": {},  # key -> first summary
         "viol_count": 0,
+        "known_count": 0,
         "seeds": [],
         "draws": 0,
         "digest_by_seed": {},
         "directed_runs": 0,
         "enumerated_runs": 0,
     }
+
+    open_known_keys = {e["key"] for e in load_known(prop) if e.get("status") == "open"}
 
     def on_result(task_id, summaries):
         for s in summaries:
@@ -409,7 +412,10 @@ def _batch(h, prop, tier, batch_seed, args, t0):
             elif s.get("name") != "enum":
                 agg["directed_runs"] += 1
             for v in s["violations"]:
-                agg["viol_count"] += 1
+                if v["key"] in open_known_keys:
+                    agg["known_count"] += 1
+                else:
+                    agg["viol_count"] += 1
                 k = v["key"]
                 if k not in agg["violations"]:
                     agg["violations"][k] = {"v": v, "seed": s["seed"], "cfg": s["cfg"], "choices": s["choices"], "digest": s["digest"], "name": s.get("name")}
@@ -543,6 +549,7 @@ def _batch(h, prop, tier, batch_seed, args, t0):
             "batch_seed": batch_seed,
             "violation_keys_seen": sorted(agg["violations"])[:20],
             "violating_runs": agg["viol_count"],
+            "known_finding_runs": agg["known_count"],
             "known_findings_met": sorted(known_hit),
             "known_findings_open": sorted(open_known),
         },
